@@ -4,7 +4,7 @@
    predicts equality. *)
 From LV Require Import Base SpecDocs.
 From LV.Checks Require Import C20Hold.
-From LVGen Require GenDeterminism.
+From LVGen Require GenDeterminism GenLayerShared.
 From Coq Require Import String.
 Open Scope string_scope.
 Open Scope N_scope.
@@ -28,6 +28,7 @@ Fixpoint list_eqb' {A} (eq : A -> A -> bool) (x y : list A) : bool :=
 Definition inventory_ok : bool :=
   list_eqb' pair_eqb GenDeterminism.unordered_loops spec_loops &&
   list_eqb' row_eqb GenDeterminism.hash_container_mentions spec_hash &&
-  match GenDeterminism.clock_or_random_mentions with [] => true | _ => false end.
+  match GenDeterminism.clock_or_random_mentions with [] => true | _ => false end &&
+  GenLayerShared.execd_copy_shape_ok.     (* distinct names = distinct destinations: hypothesis of copy_loop_order_irrelevant *)
 
 Definition agrees (c : case) : bool := inventory_ok && k_equal c.
